@@ -678,8 +678,10 @@ def lemma_SeenRank_step():
 def lemma_step(name):
     """generic: the one-step unfolding P(.., n) = P(.., n-1) and/or body(n-1) of a bound-indexed predicate follows from
     its elimination / introduction axioms"""
-    from contracts import c_preocf  # noqa: F401  (registers the predicates)
     from pyvc import iterm as IT
+    from pyvc import run as _run
+
+    _run.load_contracts()  # (registers the predicates of all contract modules)
 
     P, W, xs, body, trig, conj = IT.STEP_PREDS[name]
     cs = [z3.Const(f"{name}_c{j}", x.sort()) for j, x in enumerate(xs)]
@@ -776,6 +778,9 @@ LEMMAS = {
     "LitsOK.step": lambda: lemma_step("LitsOK"),
     "WofN.map": lemma_WofN_map,
     "GVC.count": lemma_GVC,
+    "SeenViol.step": lambda: lemma_step("SeenViol"),
+    "InKey.step": lambda: lemma_step("InKey"),
+    "GenBlock.step": lambda: lemma_step("GenBlock"),
     "CnfHolds.snoc": lemma_CnfHolds_snoc,
     "MCS.bridge": lemma_MCS_bridge,
     "MCS.bridge2": lemma_MCS_bridge2,
